@@ -291,7 +291,21 @@ def replace_aliases(source: exp.Select, predicate: exp.Expr) -> exp.Expr:
 
     def _replace_alias(column: exp.Expr) -> exp.Expr:
         if isinstance(column, exp.Column) and column.name in aliases:
-            return aliases[column.name].copy()
+            expression = aliases[column.name].copy()
+            parent = column.parent
+
+            # keep the aliased expression grouped when it lands inside another operator,
+            # e.g. p % 3 with p = a + 1 must become (a + 1) % 3, not a + 1 % 3
+            if (
+                isinstance(parent, (exp.Unary, exp.Binary))
+                and isinstance(expression, (exp.Unary, exp.Binary))
+                and not (
+                    isinstance(parent, exp.Predicate)
+                    and not isinstance(expression, (exp.Predicate, exp.Connector, exp.Not))
+                )
+            ):
+                return exp.paren(expression, copy=False)
+            return expression
         return column
 
     return predicate.transform(_replace_alias)
